@@ -371,4 +371,21 @@ theorem lex_trans_lt (a b c : Bytes) (h1 : lex a b = .lt) (h2 : lex b c = .lt) :
 
 end Blob
 
+/-! ### serialization helpers -/
+
+theorem alignUp_one (c : Nat) : alignUp c 1 = c := by simp [alignUp]
+
+theorem ofU32_toU32 (i : Int) (h : -2147483648 ≤ i ∧ i < 2147483648) : ofU32 (toU32 i) = i := by
+  unfold ofU32 toU32; split <;> omega
+theorem ofU64_toU64 (i : Int) (h : VarInt.InI64 i) : ofU64 (toU64 i) = i := by
+  unfold VarInt.InI64 at h
+  unfold ofU64 toU64; split <;> omega
+theorem toU32_lt (i : Int) : toU32 i < 4294967296 := by unfold toU32; omega
+theorem toU64_lt (i : Int) : toU64 i < 18446744073709551616 := by unfold toU64; omega
+
+theorem drop_pre (pre bs rest : Bytes) : (pre ++ bs ++ rest).drop pre.length = bs ++ rest := by
+  rw [List.append_assoc, List.drop_left']
+  rfl
+
+
 end AxVerif.Value
